@@ -645,7 +645,18 @@ def run_verus(path, header, ext, extra=(), timeout=900):
     cmd = ["verus", path, "--output-json", "--time", "--error-format=json", "--crate-name", "vu_" + os.path.basename(path).split(".")[0]]
     if header.get("externs", "none") != "none":
         for crate in header["externs"].split(","):
-            cmd += ["--extern", f"{crate}={ext[crate]}"]
+            # `name` = one of the four repository crates resolved by build_rlibs; otherwise a DEPENDENCY of them,
+            # `name` or `name:libcrate` (extern name : library crate name, e.g. bn:substrate_bn), resolved in the
+            # same deps directory (newest rlib of that crate name)
+            name, _, lib = crate.partition(":")
+            path = ext.get(lib or name)
+            if path is None:
+                c = [f for f in os.listdir(ext["_deps"]) if re.fullmatch(rf"lib{lib or name}-[0-9a-f]+\.rlib", f)]
+                if not c:
+                    raise ValueError(f"extern {crate}: no rlib in {ext['_deps']}")
+                c.sort(key=lambda f: os.path.getmtime(os.path.join(ext["_deps"], f)))
+                path = os.path.join(ext["_deps"], c[-1])
+            cmd += ["--extern", f"{name}={path}"]
         cmd += ["-L", f"dependency={ext['_deps']}"]
     if header.get("flags"):
         cmd += header["flags"].split(",")
